@@ -14,8 +14,28 @@ import (
 	"time"
 )
 
-const verifDir = "/verif"
-const repoDir = "/repo"
+// verifDir / repoDir: the registered checks always run against /verif and /repo; GOVC_VERIF / GOVC_REPO redirect
+// them to scratch worktrees during development only (never used by a MANIFEST command).
+var verifDir = envOr("GOVC_VERIF", "/verif")
+var repoDir = envOr("GOVC_REPO", "/repo")
+
+func envOr(k, d string) string {
+	if v := os.Getenv(k); v != "" {
+		return v
+	}
+	return d
+}
+
+func parallelism() int {
+	n := 16
+	if v := os.Getenv("GOVC_PAR"); v != "" {
+		fmt.Sscanf(v, "%d", &n)
+	}
+	if n < 1 {
+		n = 1
+	}
+	return n
+}
 
 type Unit struct {
 	Module   string   `json:"module"`
@@ -531,7 +551,7 @@ func writeReplay(path, id string, g *group, cfg *PropConfig) bool {
 // discharge solves all pending obligations of the engine in parallel.
 func (e *Engine) discharge(workdir string, timeout int) {
 	var wg sync.WaitGroup
-	sem := make(chan struct{}, 16)
+	sem := make(chan struct{}, parallelism())
 	for i, o := range e.obligations {
 		if o.Result != nil {
 			continue
